@@ -316,6 +316,113 @@ def krefs_sets(krefs, _cache={}):
     return _cache[k]
 
 
+_MUTATORS = ('append', 'extend', 'pop', 'remove', 'insert', 'clear', 'update', 'sort', 'reverse')
+
+
+def _own_statements(stmts):
+    """statements of a loop body that belong to this loop (nested loops are not entered; nested functions neither)"""
+    for st in stmts:
+        yield st
+        if isinstance(st, (ast.For, ast.While, ast.AsyncFor, ast.FunctionDef, ast.AsyncFunctionDef, ast.ClassDef)):
+            continue
+        for fld in ('body', 'orelse', 'finalbody'):
+            sub = getattr(st, fld, None)
+            if isinstance(sub, list):
+                for x in _own_statements(sub):
+                    yield x
+        for h in getattr(st, 'handlers', []) or []:
+            for x in _own_statements(h.body):
+                yield x
+
+
+def _stored_in(stmts):
+    out = set()
+    for st in stmts:
+        for x in ast.walk(st):
+            if isinstance(x, ast.Name) and isinstance(x.ctx, (ast.Store, ast.Del)):
+                out.add(x.id)
+            elif isinstance(x, ast.Call) and isinstance(x.func, ast.Attribute) and x.func.attr in _MUTATORS \
+                    and isinstance(x.func.value, ast.Name):
+                out.add(x.func.value.id)
+            elif isinstance(x, ast.AugAssign) and isinstance(x.target, ast.Name):
+                out.add(x.target.id)
+    return out
+
+
+def counting_whiles_to_for(func):
+    """`i = a ... while i < B: BODY; i += c` (c a positive integer constant, B not changed by the loop, no `continue`, i not read after the
+    loop)  ->  `for i in range(i, B, c): BODY`.  The two forms visit the same values of i and evaluate the same statements in the same
+    order; the canonical form lets every rule treat a counting loop the same way however it is spelt.  Returns the number of loops."""
+    count = 0
+
+    def invariant(e, stored):
+        for x in ast.walk(e):
+            if isinstance(x, ast.Name) and x.id in stored:
+                return False
+            if isinstance(x, ast.Call) and not (isinstance(x.func, ast.Name) and x.func.id == 'len' and len(x.args) == 1
+                                                and isinstance(x.args[0], (ast.Name, ast.Attribute))):
+                return False
+            if isinstance(x, (ast.Attribute, ast.Subscript)) and not isinstance(x.ctx, ast.Load):
+                return False
+        return True
+
+    def visit(stmts, later_reads):
+        nonlocal count
+        for j, st in enumerate(stmts):
+            tail_reads = later_reads | {x.id for s2 in stmts[j + 1:] for x in ast.walk(s2) if isinstance(x, ast.Name) and isinstance(x.ctx, ast.Load)}
+            for fld in ('body', 'orelse', 'finalbody'):
+                sub = getattr(st, fld, None)
+                if isinstance(sub, list) and sub and not isinstance(st, (ast.FunctionDef, ast.AsyncFunctionDef, ast.ClassDef)):
+                    inner_later = tail_reads
+                    if isinstance(st, (ast.While, ast.For)):
+                        inner_later = tail_reads | {x.id for x in ast.walk(st) if isinstance(x, ast.Name) and isinstance(x.ctx, ast.Load)}
+                    visit(sub, inner_later)
+            for h in getattr(st, 'handlers', []) or []:
+                visit(h.body, tail_reads)
+            if not isinstance(st, ast.While) or not st.body:
+                continue
+            t = st.test
+            if not (isinstance(t, ast.Compare) and len(t.ops) == 1):
+                continue
+            if isinstance(t.ops[0], ast.Lt) and isinstance(t.left, ast.Name):
+                i, bound = t.left.id, t.comparators[0]
+            elif isinstance(t.ops[0], ast.Gt) and isinstance(t.comparators[0], ast.Name):
+                i, bound = t.comparators[0].id, t.left
+            else:
+                continue
+            last = st.body[-1]
+            step = None
+            if isinstance(last, ast.AugAssign) and isinstance(last.op, ast.Add) and isinstance(last.target, ast.Name) and last.target.id == i:
+                step = last.value
+            elif isinstance(last, ast.Assign) and len(last.targets) == 1 and isinstance(last.targets[0], ast.Name) and last.targets[0].id == i \
+                    and isinstance(last.value, ast.BinOp) and isinstance(last.value.op, ast.Add):
+                a, b = last.value.left, last.value.right
+                if isinstance(a, ast.Name) and a.id == i:
+                    step = b
+                elif isinstance(b, ast.Name) and b.id == i:
+                    step = a
+            if not (isinstance(step, ast.Constant) and isinstance(step.value, int) and not isinstance(step.value, bool) and step.value >= 1):
+                continue
+            rest = st.body[:-1]
+            stored = _stored_in(rest)
+            if i in stored or not invariant(bound, stored | {i}):
+                continue
+            if any(isinstance(x, ast.Continue) for x in _own_statements(rest)):
+                continue
+            if i in tail_reads:
+                continue
+            # i must have been bound before the loop in this block or be a parameter / earlier local: range(i, ...) reads it
+            args = [ast.Name(id=i, ctx=ast.Load()), bound] + ([step] if step.value != 1 else [])
+            new = ast.For(target=ast.Name(id=i, ctx=ast.Store()), iter=ast.Call(func=ast.Name(id='range', ctx=ast.Load()), args=args, keywords=[]),
+                          body=rest or [ast.Pass()], orelse=st.orelse, type_comment=None)
+            ast.copy_location(new, st)
+            ast.fix_missing_locations(new)
+            stmts[j] = new
+            count += 1
+    visit(func.body, set())
+    return count
+
+
 class Unsupported(Exception):
     pass
 
@@ -1219,8 +1326,12 @@ class Inliner:
         return self.report
 
     def _condition_locals(self):
+        self.report['counting_loops'] = {}
         for q, fi in self.prog.functions.items():
             if isinstance(fi.node, ast.FunctionDef):
+                k = counting_whiles_to_for(fi.node)
+                if k:
+                    self.report['counting_loops'][q] = k
                 n = propagate_condition_locals(fi.node)
                 if n:
                     self.report['condition_locals'][q] = n
